@@ -1,6 +1,8 @@
 package sm
 
 import (
+	"encoding/json"
+	"path/filepath"
 	"sort"
 
 	"pgregory.net/rapid"
@@ -391,6 +393,95 @@ func (p *Profile) Draw(t *rapid.T, s *Session) cs.Op {
 		return cs.Op{Kind: kind, Coll: coll, Field: f}
 	case "listindexes":
 		return cs.Op{Kind: kind, Coll: p.liveColl(t, s)}
+	case "export":
+		op := cs.Op{Kind: kind, Coll: p.liveColl(t, s), Path: "export-" + itoa(rapid.IntRange(0, 2).Draw(t, "expfile")) + ".json"}
+		if rapid.IntRange(0, 9).Draw(t, "badpath") == 0 {
+			op.Path = "no-such-dir/x.json"
+			op.Note = "badpath"
+		}
+		return op
+	case "reimport":
+		// import a file written by an earlier export of this history
+		var paths []string
+		for i := range s.Ops {
+			if s.Ops[i].Kind == "export" && s.Ops[i].Note == "" {
+				if _, ok := s.Exports[filepath.Join(s.FilesDir(), s.Ops[i].Path)]; ok {
+					paths = append(paths, s.Ops[i].Path)
+				}
+			}
+		}
+		if len(paths) == 0 {
+			return cs.Op{Kind: "export", Coll: p.liveColl(t, s), Path: "export-0.json"}
+		}
+		name := p.anyColl(t)
+		if s.M.Colls[name] != nil && rapid.IntRange(0, 4).Draw(t, "import-existing") != 0 {
+			for _, n := range p.Colls {
+				if s.M.Colls[n] == nil {
+					name = n
+					break
+				}
+			}
+		}
+		return cs.Op{Kind: "import", Coll: name, Path: rapid.SampledFrom(paths).Draw(t, "reimport-path"), Note: "fromexport"}
+	case "import":
+		name := p.anyColl(t)
+		if s.M.Colls[name] != nil && rapid.IntRange(0, 3).Draw(t, "import-existing") != 0 {
+			for _, n := range p.Colls {
+				if s.M.Colls[n] == nil {
+					name = n
+					break
+				}
+			}
+		}
+		op := cs.Op{Kind: kind, Coll: name, Path: "import-" + itoa(len(s.Ops)) + ".json"}
+		switch rapid.IntRange(0, 9).Draw(t, "import-shape") {
+		case 0:
+			op.Content = rapid.SampledFrom([]string{"{", "[null]", "[1]", "[{\"_id\":\"00000001-0000-4000-8000-000000000001\"}", "", "{\"a\":1}", "[[]]", "[\"s\"]"}).Draw(t, "badcontent")
+			op.Note = "badfile"
+			if op.Content == "" {
+				op.Content = " "
+			}
+		case 1:
+			op.Path = "missing-file.json"
+			op.Note = "badfile"
+		default:
+			n := rapid.IntRange(0, 4).Draw(t, "import-ndocs")
+			cfg := p.Doc
+			cfg.Val.JSONSafe, cfg.Val.NonUTF8, cfg.Val.Wide, cfg.Val.Inf = true, false, false, false
+			cfg.ExpiresAt = false
+			var list []interface{}
+			used := map[string]bool{}
+			for i := 0; i < n; i++ {
+				d := cs.JSONImageDoc(gen.Fields(cfg, int64(i)).Draw(t, "import-doc"))
+				mode := rapid.IntRange(0, 11).Draw(t, "import-idmode")
+				switch {
+				case mode == 0 && p.BadIds:
+					d["_id"] = "not-a-uuid"
+				case mode == 1 && p.BadIds && i > 0:
+					d["_id"] = list[0].(map[string]interface{})["_id"]
+				case mode == 2 && p.GenIds:
+					// no _id: generated by clover
+				default:
+					id := gen.Id(rapid.IntRange(0, 40).Draw(t, "import-idk"))
+					for j := 0; used[id] && j < 50; j++ {
+						id = gen.Id(rapid.IntRange(0, 63).Draw(t, "import-idk2"))
+					}
+					used[id] = true
+					d["_id"] = id
+				}
+				if d["_id"] == nil {
+					delete(d, "_id")
+				}
+				op.Docs = append(op.Docs, d)
+				list = append(list, map[string]interface{}(d))
+			}
+			if list == nil {
+				list = []interface{}{}
+			}
+			b, _ := json.Marshal(list)
+			op.Content = string(b)
+		}
+		return op
 	case "createbyquery":
 		src := p.liveColl(t, s)
 		q := p.bulkQuery(t, s, src)
